@@ -63,6 +63,86 @@ theorem derived_static_iff {c : Content} (hn : WFnames c) {cache : Cache}
     simp only [List.reverse_nil, List.nil_append] at hSk
     exact hdisj hordNd k hSk hD
 
+/-- which scheduled names `_create_cache` puts on the dynamic list: reactions, surrogates and the
+    derived quantities that do not depend on parameters only -/
+theorem dynOrder_spec {c : Content} (hn : WFnames c) {cache : Cache}
+    (hc : createCache c = .ok cache) {k : Name} (hkO : k ∈ cache.order) :
+    k ∈ cache.dynOrder ↔ (isRS c k = true ∨ (k ∈ omKeys c.derived ∧ ¬ OnlyParams c k)) := by
+  have hwf := WFd_of_names c hn
+  obtain ⟨order, dependent, st, dst, init, extra, _, _, _, _, _, hcache⟩ := createCache_ok hc
+  have horder : cache.order = order := by rw [hcache]
+  obtain ⟨S, D, A, heq, hS, hD, hcov, hdyn, hstat, hnew, hg, hdisj⟩ :=
+    classify_spec c order [] [] (omKeys c.pars) (fun a ha => Or.inl ha)
+  have hdynO : cache.dynOrder = D := by rw [hcache, heq]; simp
+  constructor
+  · intro hD'
+    have hkD : k ∈ D := by rw [← hdynO]; exact hD'
+    rcases hdyn k hkD with h | ⟨_, d, hd, _⟩
+    · exact Or.inl h
+    · have hkd : k ∈ omKeys c.derived := mem_keys_of_mem (mem_of_lookup hd)
+      exact Or.inr ⟨hkd, fun hop => (derived_static_iff hn hc hkd).mpr hop hD'⟩
+  · rintro (h | ⟨hkd, hno⟩)
+    · rw [hdynO]
+      rcases hcov k (by rw [← horder]; exact hkO) with h1 | h1 | ⟨h1, _, _⟩
+      · rw [(hstat k h1).1] at h; cases h
+      · exact h1
+      · rw [h1] at h; cases h
+    · apply Classical.byContradiction
+      intro hnd
+      exact hno ((derived_static_iff hn hc hkd).mp hnd)
+
+/-- **the cache's parameter table holds exactly the parameters and the derived parameters**:
+    plain parameters, parameters defined by an initial assignment, and the derived quantities that
+    depend, through any chain, only on parameters -/
+theorem allPars_keys_exact {c : Content} (hn : WFnames c) {cache : Cache}
+    (hc : createCache c = .ok cache) (n : Name) :
+    n ∈ omKeys cache.allPars ↔ n ∈ omKeys c.pars ∨ (n ∈ omKeys c.derived ∧ OnlyParams c n) := by
+  have hwf := WFd_of_names c hn
+  obtain ⟨_, _, _, _, _, _, hperm, _⟩ := createCache_consistent hwf.toWFc hc
+  have hcnt := hn.count_le n
+  have hv := WFnames.count_vars (c := c) n
+  have hp := WFnames.count_pars (c := c) n
+  have hordK : n ∈ cache.order ↔ n ∈ omKeys (iaOf c.vars) ∨ n ∈ omKeys (iaOf c.pars) ∨
+      n ∈ omKeys c.derived ∨ n ∈ omKeys c.rxns ∨ n ∈ omKeys c.surs := by
+    rw [hperm.mem_iff, hn.keys_toSort]
+    simp only [List.mem_append, or_assoc]
+  rw [allPars_keys hn hc n]
+  constructor
+  · rintro (h | ⟨hO, hnD, hnV⟩)
+    · left
+      have := cpos h
+      exact List.count_pos_iff.mp (by omega)
+    · have hspec := dynOrder_spec hn hc hO
+      rcases hordK.mp hO with h | h | h | h | h
+      · exfalso; apply hnV
+        have := cpos h
+        exact List.count_pos_iff.mp (by omega)
+      · left
+        have := cpos h
+        exact List.count_pos_iff.mp (by omega)
+      · right
+        exact ⟨h, (derived_static_iff hn hc h).mp hnD⟩
+      · exact absurd (hspec.mpr (Or.inl ((isRS_iff c n).mpr (Or.inl h)))) hnD
+      · exact absurd (hspec.mpr (Or.inl ((isRS_iff c n).mpr (Or.inr h)))) hnD
+  · rintro (h | ⟨hd, hop⟩)
+    · have hpos := cpos h
+      by_cases hpl : n ∈ omKeys (plainOf c.pars)
+      · exact Or.inl hpl
+      · right
+        have hz := count_zero hpl
+        have hia : n ∈ omKeys (iaOf c.pars) := List.count_pos_iff.mp (by omega)
+        have hO : n ∈ cache.order := hordK.mpr (Or.inr (Or.inl hia))
+        refine ⟨hO, ?_, ?_⟩
+        · intro hD
+          rcases (dynOrder_spec hn hc hO).mp hD with h1 | ⟨h1, _⟩
+          · rcases (isRS_iff c n).mp h1 with h2 | h2 <;> have := cpos h2 <;> omega
+          · have := cpos h1; omega
+        · intro hm; have := cpos hm; omega
+    · right
+      have hpos := cpos hd
+      refine ⟨hordK.mpr (Or.inr (Or.inr (Or.inl hd))), (derived_static_iff hn hc hd).mpr hop, ?_⟩
+      intro hm; have := cpos hm; omega
+
 /-- **exact classification of `get_derived_parameters` / `get_derived_variables`.**  Whenever the
     model answers, the first list holds — in declaration order — exactly the derived quantities
     that depend, through any chain, only on parameters, the second list exactly the others; together
